@@ -43,6 +43,7 @@ def _work(item):
         summ["pyexc"] = [e for e in ev if e.startswith("pyexc")]
     else:
         summ["events_tail"] = out["rec"].events[-12:]
+    summ["convention_errors"] = out["rec"].extra.get("convention_errors", [])
     return summ
 
 
@@ -98,8 +99,10 @@ def excerpt(line, idx, width=8):
 
 
 def run_check(chk, rng, replay, prop, modules, focus, n_quick, n_thorough, own_tags, extra=None,
-              doc="", p_inject=0.05):
-    ok, info = common.proof_stage(chk, modules)
+              doc="", p_inject=0.05, merge=False, proof=None, tweak=None):
+    """merge=True: the caller has its own coverage; the whole-run numbers go under coverage['whole_runs'].
+    proof=(ok, info): reuse the caller's proof stage.  tweak(desc, rng): adjust generated descriptions."""
+    ok, info = proof if proof is not None else common.proof_stage(chk, modules)
     if replay is not None:
         items = [(replay["desc"], replay.get("inject"), 120)]
     else:
@@ -108,6 +111,8 @@ def run_check(chk, rng, replay, prop, modules, focus, n_quick, n_thorough, own_t
         items += gen_items(rng, n, focus, p_inject=p_inject)
         # a share of runs from the generic mix so that every run-level check sees every kind of run
         items += gen_items(rng, max(20, n // 5), "general", p_inject=p_inject)
+        if tweak is not None:
+            items = [(tweak(d, rng), inj, t) for d, inj, t in items]
     summaries = record_many(items)
     verdicts = classify(summaries)
     stat = collections.Counter()
@@ -120,11 +125,11 @@ def run_check(chk, rng, replay, prop, modules, focus, n_quick, n_thorough, own_t
             stat["accepted"] += 1
             status_hist[str(s["status"])] += 1
         elif v[0] == "reject":
-            tag = v[2].split(" ", 1)[0]
+            tags = v[2].split(" ", 1)[0].split(",")
             stat["rejected"] += 1
-            if tag in own_tags:
+            if any(t in own_tags for t in tags):
                 own.append((s, v))
-            elif tag.startswith("C") and tag[1:].isdigit():
+            elif all(t.startswith("C") and t[1:].isdigit() for t in tags):
                 foreign.append((s, v))
             else:
                 structural.append((s, v))
@@ -145,7 +150,8 @@ def run_check(chk, rng, replay, prop, modules, focus, n_quick, n_thorough, own_t
             nontrivial.add(json.dumps(s["desc"], sort_keys=True))
     samples = [{"desc": s["desc"], "status": s.get("status"), "nfev": s.get("nfev"), "n_events": s.get("n_events")}
                for s, v in verdicts[-2:]]
-    chk.coverage.update({
+    cov = {}
+    cov.update({
         "evaluations": len(items),
         "distinct_nontrivial": len(nontrivial),
         "rule": "whole runs of cobyqa.minimize on generated problems (n 1..5; objective kinds quad/rosen/abs/noisy/lin/const/None, NaN/inf injected at indices or regions; "
@@ -164,11 +170,15 @@ def run_check(chk, rng, replay, prop, modules, focus, n_quick, n_thorough, own_t
         "rejected_for_other_properties": collections.Counter(v[2].split(" ", 1)[0] for _, v in foreign),
         "timeouts": len(timeouts),
     })
+    if merge:
+        chk.coverage["whole_runs"] = cov
+    else:
+        chk.coverage.update(cov)
     chk.assumptions += [
         "theorems quantify over every event trace accepted by Model/Run.lean; a real run inherits them only if its recorded trace is accepted (checked for every run above)",
         "the recorder (harness/trace.py) observes cobyqa through monkey-patched methods and user-function spies; what it cannot see (e.g. reads of module globals) is outside the tie",
     ]
-    if doc:
+    if doc and not merge:
         chk.coverage["what_is_decided"] = doc
     if extra:
         extra(chk, verdicts)
@@ -187,7 +197,7 @@ def run_check(chk, rng, replay, prop, modules, focus, n_quick, n_thorough, own_t
         for s, v in timeouts[:3]:
             chk.violation({"property": prop, "kind": "no-return-within-timeout", "desc": s["desc"], "inject": s["inject"],
                            "signature": {"exception": "timeout"}})
-    if not own:
+    if not own and not merge:
         broken = []
         if not ok:
             broken += info.get("problems") or ["proof stage failed"]
